@@ -2,7 +2,7 @@
   The end-of-bar liquidation (`update()` = `_liquidate` → `_do_liquidate`) keeps cache coherence.
   `_do_liquidate` changes the seized supply *before* it resets any cache and before its last `raise`
   (`DemeterError("variable_delt < actual_debt_to_liquidate")`); every other raise precedes the first
-  mutation.  Hence: coherence is kept unless that one error is raised (`badLiq`).
+  mutation.  Hence: coherence is kept unless that one error is raised (`noBad`).
 -/
 import Proofs.Lemmas.AaveWrites3
 namespace Demeter.Aave
@@ -13,8 +13,12 @@ variable {cx : ACtx} {env : Env}
 /-- the indices of the bar are non-zero (the property quantifies over positive indices) -/
 def EnvPos (env : Env) : Prop := ∀ k st, env.statusOf k = .ok st → st.liqIdx ≠ 0 ∧ st.varIdx ≠ 0
 
-/-- the one raise of `_do_liquidate` that comes after a mutation -/
-def badLiq (e : Err) : Prop := e = .liqDebtExceeds
+/-- no raise of `_do_liquidate` comes between a mutation and the cache resets any more (the
+    `DemeterError("variable_delt < actual_debt_to_liquidate")` is checked before the seizure): nothing is excluded -/
+def noBad (_ : Err) : Prop := False
+
+theorem InvE.toInv {I : St → Prop} {α : Type} {m : M α} (h : InvE I noBad m) : Inv I m :=
+  fun s hs => h s hs (fun _ _ hb => hb)
 
 /-! ### pre/post reasoning outside a set of excluded errors -/
 
@@ -175,49 +179,44 @@ theorem liqDebtOf_post (dtok : String) (s0 : St) (s : St) (hs : Pin cx env s0.su
 theorem good_liqCommit (hE : EnvOK env) {s0 s : St} (hs : Pin cx env s0.supplies s0.borrows s)
     {ctok dtok : String} {info : SupplyInfo} {cst dst : TokStatus} (hcst : env.statusOf ctok = .ok cst)
     (hdst : env.statusOf dtok = .ok dst) (hnz : dst.varIdx ≠ 0) (hc : AList.contains s0.borrows dtok = true)
-    (nb varDebt debtLiq : Rat)
-    (hb : ∀ e, (liqCommit cx env ctok info nb dtok varDebt debtLiq s).1 = .error e → ¬ badLiq e) :
-    Good cx env (liqCommit cx env ctok info nb dtok varDebt debtLiq s).2 := by
+    (nb debtLiq : Rat) :
+    Good cx env (liqCommit cx env ctok info nb dtok debtLiq s).2 := by
   obtain ⟨⟨gs, gb⟩, e1, e2⟩ := hs
   obtain ⟨binfo, hbi⟩ := aget_of_contains hc
   have hdc : HasData env ctok := hE ctok cst hcst
   have hdd : HasData env dtok := hE dtok dst hdst
-  unfold liqCommit at hb ⊢
-  rw [run_bind] at hb ⊢
-  simp only [liqSeize, run_modify] at hb ⊢
-  by_cases hge : varDebt ≥ debtLiq
-  · simp only [hge, if_true] at hb ⊢
-    rw [run_bind, subBorrowAmount_run debtLiq (by show AList.get? s.borrows dtok = some binfo; rw [e2]; exact hbi) hdst hnz]
-    simp only [run_bind, resetAll, run_modify, run_pure]
-    refine ⟨⟨?_, ?_, CohC.fresh _, CohC.fresh _, CohC.fresh _⟩, ⟨?_, ?_, CohC.fresh _, CohC.fresh _⟩⟩
-    · show (keys (if nb = 0 then _ else _)).Nodup
-      split
-      · exact nodup_erase gs.nd _
-      · exact nodup_set gs.nd _ _
-    · show Covers env (if nb = 0 then _ else _)
-      split
-      · exact covers_erase gs.cv _
-      · exact covers_set gs.cv hdc _
-    · show (keys (if _ = 0 then _ else _)).Nodup
-      split
-      · exact nodup_erase gb.nd _
-      · exact nodup_set gb.nd _ _
-    · show Covers env (if _ = 0 then _ else _)
-      split
-      · exact covers_erase gb.cv _
-      · exact covers_set gb.cv hdd _
-  · simp only [hge, if_false] at hb
-    exact absurd rfl (hb .liqDebtExceeds rfl)
+  unfold liqCommit
+  rw [run_bind]
+  simp only [liqSeize, run_modify]
+  rw [run_bind, subBorrowAmount_run debtLiq (by show AList.get? s.borrows dtok = some binfo; rw [e2]; exact hbi) hdst hnz]
+  simp only [run_bind, resetAll, run_modify, run_pure]
+  refine ⟨⟨?_, ?_, CohC.fresh _, CohC.fresh _, CohC.fresh _⟩, ⟨?_, ?_, CohC.fresh _, CohC.fresh _⟩⟩
+  · show (keys (if nb = 0 then _ else _)).Nodup
+    split
+    · exact nodup_erase gs.nd _
+    · exact nodup_set gs.nd _ _
+  · show Covers env (if nb = 0 then _ else _)
+    split
+    · exact covers_erase gs.cv _
+    · exact covers_set gs.cv hdc _
+  · show (keys (if _ = 0 then _ else _)).Nodup
+    split
+    · exact nodup_erase gb.nd _
+    · exact nodup_set gb.nd _ _
+  · show Covers env (if _ = 0 then _ else _)
+    split
+    · exact covers_erase gb.cv _
+    · exact covers_set gb.cv hdd _
 
 theorem invE_doLiquidate (hE : EnvOK env) (hP : EnvPos env) (ck dk : Option String) (dv : Rat) :
-    InvE (Good cx env) badLiq (doLiquidate cx env ck dk dv) := by
+    InvE (Good cx env) noBad (doLiquidate cx env ck dk dv) := by
   intro s hs
   have hid : ∀ s', Pin cx env s.supplies s.borrows s' → Good cx env s' := fun _ h => h.1
   have hpin : ∀ s', Pin cx env s.supplies s.borrows s' → s'.supplies = s.supplies ∧ s'.borrows = s.borrows :=
     fun _ h => ⟨h.2.1, h.2.2⟩
   have hR := readInv_pin (cx := cx) (env := env) s.supplies s.borrows
   have hG := readInv_good (cx := cx) (env := env)
-  refine (?_ : InvToE (Pin cx env s.supplies s.borrows) (Good cx env) badLiq _) s ⟨hs, rfl, rfl⟩
+  refine (?_ : InvToE (Pin cx env s.supplies s.borrows) (Good cx env) noBad _) s ⟨hs, rfl, rfl⟩
   unfold doLiquidate
   refine InvToE.bind (R := Pin cx env s.supplies s.borrows) hR.toReadInv3.healthFactor.to.toE (fun oldHf => ?_) hid
   refine InvToE.bind_ofRes (fun dtok _ => ?_) hid
@@ -246,20 +245,21 @@ theorem invE_doLiquidate (hE : EnvOK env) (hP : EnvPos env) (ck dk : Option Stri
   refine InvToE.bind_ofRes (fun pd _ => ?_) hid2
   refine InvToE.bind_ofRes (fun pc _ => ?_) hid2
   refine InvToE.bind_ofRes (fun amts _ => ?_) hid2
+  refine InvToE.bind_require (fun _ => ?_) hid2
   refine InvToE.bind_ofRes (fun dBase _ => ?_) hid2
   refine InvToE.bind (R := Good cx env) ?_ (fun remaining => ?_) (fun _ h => h)
-  · intro s' ⟨hs', hc⟩ hb
-    exact good_liqCommit hE hs' hcst hdst (hP dtok dst hdst).2 (hc hvd') _ _ _ hb
+  · intro s' ⟨hs', hc⟩ _
+    exact good_liqCommit hE hs' hcst hdst (hP dtok dst hdst).2 (hc hvd') _ _
   · refine (Inv.to ?_).toE
     exact Inv.bind hG.toReadInv3.healthFactor (fun _ => Inv.bind (Inv.queryPos _) (fun _ => inv_record _))
 
 /-! ### the loop and `update()` -/
 
-theorem badLiq_not_assertion : ∀ e, badLiq e → e.isAssertion = false := by
-  intro e h; rw [h]; rfl
+theorem noBad_not_assertion : ∀ e, noBad e → e.isAssertion = false := by
+  intro e h; exact absurd h id
 
 theorem invE_liquidateLoop (hE : EnvOK env) (hP : EnvPos env) : ∀ (fuel : Nat) (done : List String) (hf : XRat),
-    InvE (Good cx env) badLiq (liquidateLoop cx env fuel done hf) := by
+    InvE (Good cx env) noBad (liquidateLoop cx env fuel done hf) := by
   have hG := readInv_good (cx := cx) (env := env)
   intro fuel
   induction fuel with
@@ -272,15 +272,18 @@ theorem invE_liquidateLoop (hE : EnvOK env) (hP : EnvPos env) : ∀ (fuel : Nat)
       dsimp only
       split
       · exact (Inv.pure _).toE
-      · exact InvE.bind (InvE.catch (invE_doLiquidate hE hP _ _ _) badLiq_not_assertion)
+      · exact InvE.bind (InvE.catch (invE_doLiquidate hE hP _ _ _) noBad_not_assertion)
           (fun _ => InvE.bind hG.toReadInv3.healthFactor.toE (fun _ => ih _ _))
     · exact (Inv.pure _).toE
 
-/-- `update()` keeps cache coherence unless `_do_liquidate` raises its post-mutation `DemeterError` -/
-theorem invE_liquidate (hE : EnvOK env) (hP : EnvPos env) : InvE (Good cx env) badLiq (liquidate cx env) := by
+theorem invE_liquidate (hE : EnvOK env) (hP : EnvPos env) : InvE (Good cx env) noBad (liquidate cx env) := by
   have hG := readInv_good (cx := cx) (env := env)
   unfold liquidate guardOpen
   exact InvE.bind (Inv.require _ _).toE (fun _ => InvE.bind hG.toReadInv3.healthFactor.toE (fun _ =>
     InvE.bind (Inv.queryPos _).toE (fun _ => InvE.bind (invE_liquidateLoop hE hP _ _ _) (fun _ => inv_setUpdated.toE))))
+
+/-- `update()` keeps cache coherence, whatever it raises -/
+theorem inv_liquidate (hE : EnvOK env) (hP : EnvPos env) : Inv (Good cx env) (liquidate cx env) :=
+  (invE_liquidate hE hP).toInv
 
 end Demeter.Aave
